@@ -42,6 +42,11 @@ class CompileMapper(StringifyMapper):
                 expr = float(expr)
             elif isinstance(expr, numpy.complexfloating):
                 expr = complex(expr)
+            elif isinstance(expr, numpy.integer):
+                # repr() of numpy scalars is 'np.int64(3)' as of numpy 2
+                expr = int(expr)
+            elif isinstance(expr, numpy.bool_):
+                expr = bool(expr)
 
         return repr(expr)
 
